@@ -52,16 +52,16 @@ type shardViolation struct {
 }
 
 type shardOut struct {
-	Name        string            `json:"name"`
-	Executions  int64             `json:"executions"`
-	Transitions int64             `json:"transitions"`
-	PerBound    map[string]int64  `json:"per_bound"`
-	MaxPoints   int               `json:"max_points"`
-	Outcomes    []string          `json:"outcomes"`
-	Exhaustive  bool              `json:"exhaustive"`
-	Violations  []shardViolation  `json:"violations"`
-	Extra       map[string]int64  `json:"extra"`
-	Broken      []string          `json:"broken"`
+	Name        string           `json:"name"`
+	Executions  int64            `json:"executions"`
+	Transitions int64            `json:"transitions"`
+	PerBound    map[string]int64 `json:"per_bound"`
+	MaxPoints   int              `json:"max_points"`
+	Outcomes    []string         `json:"outcomes"`
+	Exhaustive  bool             `json:"exhaustive"`
+	Violations  []shardViolation `json:"violations"`
+	Extra       map[string]int64 `json:"extra"`
+	Broken      []string         `json:"broken"`
 }
 
 type violator interface {
